@@ -33,6 +33,10 @@ type c02Case struct {
 	// unanswered ("rest" = right after start, "mid" = after the first of the pending requests was answered);
 	// the instance is not complete and must never say so
 	Cancel string `json:"cancel,omitempty"`
+	// Pre: a call made before the instance is started, under a context of its own that is cancelled as soon as
+	// the call has returned: "badstart" = StartWith on an end event (returns an error), "throwall" =
+	// ThrowAll (the process has no throw events). Neither starts anything; what follows must be unaffected.
+	Pre string `json:"pre,omitempty"`
 }
 
 func c02Graph(c *c02Case) *gen.Graph {
@@ -118,6 +122,20 @@ func c02Cases(tier string, seed uint64) []fw.Case {
 								cs = append(cs, fw.MkCase("grid", &c))
 							}
 						}
+					}
+				}
+			}
+		}
+	}
+	// a call that starts nothing, made first under a context that is gone before the instance is started
+	for starts := 1; starts <= 2; starts++ {
+		for _, shape := range []string{"ind", "sub"} {
+			for _, mode := range []string{"all", "each"} {
+				for _, pre := range []string{"badstart", "throwall"} {
+					for _, at := range []string{"before", "after"} {
+						c := c02Case{Starts: starts, Shape: shape, Mode: mode, Waiters: 2, Attach: at, Hist: "plain", Reps: 1, Pre: pre}
+						c.Name = fmt.Sprintf("pre-%s-S%d-%s-%s-%s", pre, starts, shape, mode, at)
+						cs = append(cs, fw.MkCase("grid", &c))
 					}
 				}
 			}
@@ -359,6 +377,43 @@ func c02Run1(c *c02Case, env *fw.Env, v *fw.V) {
 			return r.attach() && r.quiesce("after attaching waiters mid-run")
 		}
 		return true
+	}
+	if c.Pre != "" {
+		pctx, pcancel := context.WithCancel(context.Background())
+		var call *drive.Call
+		if c.Pre == "badstart" {
+			ends := *in.Proc.Element().EndEvents()
+			if len(ends) == 0 {
+				v.Inconclusive("setup", "no end event to misuse as a start node")
+				pcancel()
+				return
+			}
+			call = in.Go("StartWith", func() error {
+				if err := in.Proc.StartWith(pctx, schema.FlowNodeInterface(&ends[0])); err == nil {
+					return fmt.Errorf("StartWith on an end event returned no error")
+				}
+				return nil
+			})
+		} else {
+			// (a process without throw events: ThrowAll reports that and does nothing)
+			call = in.Go("ThrowAll", func() error { in.Proc.ThrowAll(pctx); return nil })
+		}
+		if !r.quiesce("after the preliminary " + c.Pre + " call") {
+			pcancel()
+			fail()
+			return
+		}
+		if d, err := call.Done(); !d || err != nil {
+			v.Violate("caller-blocked", "pre-"+c.Pre, "preliminary %s call: returned=%v err=%v", c.Pre, d, err)
+			pcancel()
+			fail()
+			return
+		}
+		pcancel()
+		if !r.quiesce("after cancelling the context of the preliminary " + c.Pre + " call") {
+			fail()
+			return
+		}
 	}
 	if c.Mode == "all" {
 		call := in.StartAsync()
